@@ -178,6 +178,9 @@ pub mod proto {
         RetireBlocked,
         /// a worker visited one of its shards: (worker id, shard id), timestamp = entries drained
         WorkerFlush,
+        /// a write batch holds its extents and is about to take the device lock:
+        /// (first sector, number of record writes)
+        BatchAllocated,
     }
 
     pub trait Observer: Send + Sync {
